@@ -603,6 +603,22 @@ def compile (fuel : Nat) : St α → List (List Char) → Outcome α
         | .done s' => compile fuel s' rest
         | o => o
 
+/-- what outlives a BASIC program in the engine: the PUT/PUT$ store (`save_values`, `save_strings` of `Phreeqc`), the
+interpreter's `punch_tab` / `skip_punch` members and the engine's `output_newline` flag. Lines, variables, loops and
+the DATA pointer belong to the program definition and start fresh. -/
+def carryOver (s : St α) : St α :=
+  { hp := s.hp, putN := s.putN, putS := s.putS, punchTab := s.punchTab, skipPunch := s.skipPunch,
+    outNewline := s.outNewline }
+
+/-- `basic_compile` followed by `basic_run("run")`, starting from what an earlier program left in the engine -/
+def compileAndRunFrom (s0 : St α) (fuel : Nat) (text : String) : Outcome α :=
+  match compile fuel s0 (logicalLines text.toList) with
+  | .done s =>
+    let s1 := { s with vars := [], loops := [], dataline := none, datatok := [] }
+    if s1.lines.isEmpty then .done s1
+    else runLoop theHook fuel { st := s1, line := some 0, tok := lineToks s1 0 }
+  | o => o
+
 /-- `basic_compile` followed by `basic_run("run")` -/
 def compileAndRun (hp : Bool) (fuel : Nat) (text : String) : Outcome α :=
   match compile fuel ({ hp := hp } : St α) (logicalLines text.toList) with
